@@ -4,6 +4,7 @@
    where it is not the identity, and the error -> exception map, at the level of the model. *)
 From BBF Require Import Base.Prelude Base.Names Base.Bits Spec.Sem Model.Expr Model.Table Model.Lexer Model.Parser
      Model.Render Model.Csv Model.Py Proofs.ExprProofs Proofs.LexerProofs Proofs.ParserProofs Proofs.CsvProofs.
+From BBF Require Import Model.LibBdd Model.Bdd Model.Display Model.Prog Model.PyProg Proofs.ProgProofs Proofs.PyProofs.
 
 Theorem C19_and_or_invert_meaning : forall v a b,
   sem v (py_and a b) = sem v a && sem v b /\ sem v (py_or a b) = sem v a || sem v b /\ sem v (py_invert a) = negb (sem v a).
@@ -60,6 +61,53 @@ Proof.
   destruct (from_csv_never_panics s c) as (H & _). exact (H E).
 Qed.
 Print Assumptions C19_csv_exception_map.
+
+(* ---- scripted call sequences (the quantifier of the property): the case language through the Python classes ---- *)
+
+(* a call returns a value through Python exactly when the Rust call does, and it is the same object *)
+Theorem C19_call_returns_what_rust_returns : forall p i e, py_exec p i = PyOk e <-> exec p i = Ok e.
+Proof. exact py_exec_ok. Qed.
+Print Assumptions C19_call_returns_what_rust_returns.
+
+(* hence whole scripts leave the same objects behind, whatever fails on the way *)
+Theorem C19_scripts_agree : forall is, py_run is = run is.
+Proof. exact py_run_is_run. Qed.
+Print Assumptions C19_scripts_agree.
+
+(* a raised exception is the mapped class of a Rust error, or PanicException for a Rust panic *)
+Theorem C19_raises_only_for_failures : forall p i x, py_exec p i = PyRaise x ->
+  (exists c, exec p i = Err c /\ c <> 90 /\ x = exc_of_instr i c) \/ (exists c, exec p i = Panic c /\ x = PanicException).
+Proof. exact py_exec_raise. Qed.
+Print Assumptions C19_raises_only_for_failures.
+
+(* parse and conversion failures are RuntimeError: only the CSV import raises anything else *)
+Theorem C19_only_csv_import_raises_other_kinds : forall p i x, py_exec p i = PyRaise x ->
+  x <> RuntimeError -> x <> PanicException -> exists f s, i = ICsvIn f s.
+Proof. exact py_exec_special_only_csv. Qed.
+Print Assumptions C19_only_csv_import_raises_other_kinds.
+
+(* no operation of the case language raises KeyError: that kind is reserved for checked evaluation *)
+Theorem C19_operations_never_raise_keyerror : forall p i, py_exec p i <> PyRaise KeyError.
+Proof. exact py_exec_never_key_error. Qed.
+Print Assumptions C19_operations_never_raise_keyerror.
+
+(* a Rust panic reaches Python only for the documented refusal (diagram substitution whose replacement
+   mentions its key), on pools of well-formed objects *)
+Theorem C19_panic_exception_only_for_documented_refusal : forall p i, Inv p -> py_exec p i = PyRaise PanicException ->
+  documented_refusal p i.
+Proof.
+  intros p i Hinv H. apply py_exec_raise in H. destruct H as [(c & _ & _ & H)|(c & H & _)].
+  - unfold exc_of_instr in H. destruct i; try discriminate.
+    destruct (exc_of_csv_cases c) as [E|[E|[E|E]]]; rewrite E in H; discriminate.
+  - exact (exec_panics_only_as_documented p i c Hinv H).
+Qed.
+Print Assumptions C19_panic_exception_only_for_documented_refusal.
+
+Example C19_example_script :
+  py_exec [] (IParse [97; 32; 38]%N) = PyRaise RuntimeError /\
+  py_exec [] (ICsvIn false [97; 44; 114; 10; 48; 44; 120; 10; 49; 44; 48; 10]%N) = PyRaise TypeError /\
+  exc_of_missing_file = OSError.
+Proof. repeat split. Qed.
 
 Example C19_example : py_new (AStr [97; 32; 38]%N) = inr RuntimeError /\ py_new AOther = inr TypeError /\
   py_evaluate_checked (py_and (Lit [97%N]) (Lit [98%N])) [([97%N], true)] = inr KeyError.
